@@ -232,17 +232,22 @@ deriving Repr
 /-- the state of the `upstreamLimiter` for `u`; one that was never touched is fresh, but sees the shared client set -/
 def Gw.st (nShards : Nat) (g : Gw) (u : Nat) : RemoteLimiter.State := (aget g.ups u).getD { gwInit nShards with hb := g.hbs }
 
-/-- one C09 step of the `upstreamLimiter` for `u` (a panic — impossible for the schemas of the loop — keeps the state) -/
+/-- one C09 step (a panic — impossible for the schemas of the loop, see `KG.Lemmas.LimiterLoop.step_schema` /
+    `step_answer` / `step_hb` — keeps the state) -/
+def stepOr (st : RemoteLimiter.State) (op : RemoteLimiter.Op) : RemoteLimiter.State :=
+  match RemoteLimiter.step st op with
+  | .ok st' => st'
+  | .error _ => st
+
+/-- one C09 step of the `upstreamLimiter` for `u` -/
 def Gw.apply (nShards : Nat) (g : Gw) (u : Nat) (op : RemoteLimiter.Op) : Gw :=
-  match RemoteLimiter.step (g.st nShards u) op with
-  | .ok st' => { g with ups := aset g.ups u st' }
-  | .error _ => g
+  { g with ups := aset g.ups u (stepOr (g.st nShards u) op) }
 
 /-- one heartbeat outcome (`setLeaderStatus`) seen by every `upstreamLimiter` of the gateway: C09's `.hb` step -/
 def Gw.heartbeat (g : Gw) (ok : Bool) (now : Int) : Gw :=
   { g with
     hbs := some (RemoteLimiter.hbStep (g.hbs.getD {}) ok now)
-    ups := g.ups.map (fun p => (p.1, match RemoteLimiter.step p.2 (.hb ok now false) with | .ok st' => st' | .error _ => p.2)) }
+    ups := g.ups.map (fun p => (p.1, stepOr p.2 (.hb ok now false))) }
 
 /-- the schema a gateway syncs: local limit `l`, global limit `t`, strategy `globalAllocate` -/
 def mkSchema (l t : Int) : RemoteLimiter.Schema := { strategy := .alloc, mi := some l, gmi := some t }
